@@ -76,8 +76,12 @@ func StrPtrEq(a, b *string) bool               { panic("intrinsic") }
 func Int64PtrEq(a, b *int64) bool              { panic("intrinsic") }
 func HasPrefix(s, p string) bool               { panic("intrinsic") }
 func GrpcCode(err error) int                   { panic("intrinsic") }
+func IgnoreGo()                                { panic("intrinsic") }
+func SchedulerMayRefuse()                      { panic("intrinsic") }
 // GinContext: wildcards are the catch-all route parameters (*name), which gin delivers with a leading "/".
 func GinContext(method string, wildcards ...string) *gin.Context { panic("intrinsic") }
+func GinBound(kind string, i int) any           { panic("intrinsic") }
+func GinParamSent(name string) string          { panic("intrinsic") }
 func HttpReplies() int                         { panic("intrinsic") }
 func HttpCode(i int) int                       { panic("intrinsic") }
 func HttpBody(i int) any                       { panic("intrinsic") }
@@ -93,6 +97,7 @@ func UrlString(u string) string                { panic("intrinsic") }
 func UrlValid(u string) bool                   { panic("intrinsic") }
 func JsonValid(s string) bool                  { panic("intrinsic") }
 func JsonOfString(s string) string             { panic("intrinsic") }
+func JsonUnknownFields(s string, sample any) bool { panic("intrinsic") }
 func TemplateTrouble() bool                    { panic("intrinsic") }
 func Like(s, pattern string) bool              { panic("intrinsic") }
 func LikePattern(clientPattern string) string  { panic("intrinsic") }
